@@ -366,7 +366,8 @@ func c04R3(c *Ctx) {
 		c.LostAnchor(R, "semaphore.NewWeighted in package ~")
 	}
 	graphFns := c01GraphCopyFns(c.P)
-	for _, T := range traversalClosures(c.P) {
+	for _, tr := range c01Traversals(c.P) {
+		T := tr.Body
 		key := c01ClosureKey(T, "traverse") + "|dispatch-uses-shared-limiter"
 		ok := len(CallsTo(T, nNewSem)) == 0
 		why := "the traversal creates its own semaphore"
@@ -374,7 +375,7 @@ func c04R3(c *Ctx) {
 		var initial []ssa.Value
 		for g := range graphFns {
 			for _, gc := range CallsTo(g, nGo) {
-				if fn, _ := c01FuncOfValue(gc.Common().Args[2]); fn == T {
+				if fn, _ := c01FuncOfValue(gc.Common().Args[2]); fn == tr.Entry {
 					initial = append(initial, gc.Common().Args[1])
 				}
 			}
@@ -686,7 +687,8 @@ func c04R4(c *Ctx) {
 			ifelse(okClose, "the fetched reader is closed (deferred or explicit) on every path after a successful Fetch", "the fetched reader can stay open after the transfer (a source read stays in flight beyond the permit)"))
 	}
 	// --- traversal: one terminal action per node ---
-	for _, T := range traversalClosures(c.P) {
+	for _, tr := range c01Traversals(c.P) {
+		T := tr.Body
 		var acts []ssa.Instruction
 		acts = append(acts, c04Instrs(sitesOf(T, skippedF))...)
 		acts = append(acts, c04Instrs(isCallTo(copyNode)(T))...)
